@@ -128,16 +128,18 @@ Proof.
       match goal with Hx : kx_psk kx = true |- _ => rewrite Hx end.
       rewrite <- app_assoc. destruct (be_enc2_split (len hb) (hb ++ e)) as [F2 S2]. rewrite F2, S2.
       rewrite !len_app, len_be_enc.
-      destruct (N.ltb_spec (N.of_nat 2 + (len hb + len e)) 2) as [|_]; [lia|]. rewrite Wz.
-      rewrite be_dec_enc by (change (256 ^ N.of_nat 2) with 65536; lia).
-      destruct (N.leb_spec (len hb) (N.of_nat 2 + (len hb + len e) - 2)) as [_|]; [|lia]. cbn [andb].
+      assert (Hhb : len hb < 65536)
+        by (match goal with Hx : (len hb <? 65536) = true |- _ => clear - Hx; lia end).
+      destruct (N.ltb_spec (N.of_nat 2 + (len hb + len e)) 2) as [Hbad|_]; [clear - Hbad; lia|]. rewrite Wz.
+      rewrite be_dec_enc by (change (256 ^ N.of_nat 2) with 65536; exact Hhb).
+      destruct (N.leb_spec (len hb) (N.of_nat 2 + (len hb + len e) - 2)) as [_|Hbad]; [|clear - Hbad; lia]. cbn [andb].
       rewrite take_app_exact, drop_app_exact.
       destruct (N.eqb_spec kx 2) as [Hk2|_].
       { subst kx. vm_compute in Hecd. discriminate. }
       rewrite Hecd. cbn [negb]. rewrite De. cbn [omap]. rewrite Eflat. reflexivity.
     + (* no hint: ECDHE only *)
       apply negb_true_iff in Wh. rewrite Wh. cbn [app].
-      destruct (N.ltb_spec (len e) 2) as [|_]; [lia|]. rewrite Wz. rewrite andb_false_r.
+      destruct (N.ltb_spec (len e) 2) as [Hbad|_]; [clear - Hbad He4; lia|]. rewrite Wz. rewrite andb_false_r.
       destruct (N.eqb_spec kx 2) as [Hk2|_].
       { subst kx. vm_compute in Hecd. discriminate. }
       rewrite Hecd. cbn [negb]. rewrite De. cbn [omap]. rewrite Eflat. reflexivity.
@@ -284,21 +286,21 @@ Proof.
   destruct (chunk2_sigs sigs ltac:(assumption) ltac:(assumption)) as [Hsig Hsl]. fold es in Hsig, Hsl.
   destruct (cas_enc_len cas ltac:(assumption) ltac:(assumption)) as [Hce [Hcl Hcw]]. fold ec in Hce, Hcl.
   unfold cr_dec.
-  (* total length >= 5 *)
-  rewrite app_assoc. rewrite <- (cr_types_enc tys) by (try lia; assumption).
+  pose proof (cr_types_enc tys ltac:(lia) ltac:(assumption)) as Ety.
   assert (Wty : wf c_cr_types tys = true) by (apply cr_types_wf; try lia; assumption).
-  destruct (sound_cr_types tys (be_enc 2 (N.of_nat (length sigs) * 2) ++ es ++ be_enc 2 (cas_len cas) ++ ec) Wty)
-    as [ety [Ety Dty]].
-  rewrite Ety in *. cbn [app]. remember (ety ++ be_enc 2 (N.of_nat (length sigs) * 2) ++ es ++ be_enc 2 (cas_len cas) ++ ec) as b eqn:Hb.
+  set (rest := be_enc 2 (N.of_nat (length sigs) * 2) ++ es ++ be_enc 2 (cas_len cas) ++ ec).
+  destruct (sound_cr_types tys rest Wty) as [ety [Ety' Dty]].
+  assert (Hety : ety = be_enc 1 (N.of_nat (length tys)) ++ flat_map (be_enc 1) tys) by congruence.
+  rewrite app_assoc. rewrite <- Hety. fold rest.
+  remember (ety ++ rest) as b eqn:Hb.
   assert (Hl5 : 5 <= len b).
-  { subst b. rewrite !len_app, !len_be_enc.
-    rewrite (cr_types_enc tys) in Ety by (try lia; assumption). inversion Ety; subst ety.
-    rewrite len_app, len_be_enc. lia. }
+  { subst b ety. unfold rest. rewrite !len_app, !len_be_enc. clear. lia. }
   destruct (N.ltb_spec (len b) 5) as [|_]; [lia|].
   rewrite Dty.
   destruct (sound_u 2 (N.of_nat (length sigs) * 2) (es ++ be_enc 2 (cas_len cas) ++ ec)) as [e2 [E2 D2]].
   { unfold c_u; cbn [wf]. change (256 ^ N.of_nat 2) with 65536. apply N.ltb_lt. assumption. }
-  cbn [enc c_u] in E2. inversion E2; subst e2; clear E2. rewrite D2.
+  assert (He2 : e2 = be_enc 2 (N.of_nat (length sigs) * 2)) by (cbn [enc c_u] in E2; congruence).
+  subst e2. unfold rest. rewrite D2.
   rewrite len_app, Hsl.
   destruct (N.ltb_spec (N.of_nat (length sigs) * 2 + len (be_enc 2 (cas_len cas) ++ ec)) (N.of_nat (length sigs) * 2)) as [|_]; [lia|].
   unfold cr_sigs_dec.
@@ -322,10 +324,11 @@ Qed.
    vector length makes the decoder read one byte of the following field *)
 Theorem certreq_declared_length_refuted :
   exists b x, bytes_ok b = true /\ cr_dec b = Some x /\
-    (* declared: 1 byte of algorithms (04); decoded: the scheme 0x0403 = that byte plus the next *)
-    b = [0; 0; 1; 4; 3; 0; 0] /\ fst (snd x) = [(4, 3)].
+    (* declared: ONE byte of algorithms (04); decoded: scheme 0x0400 = that byte plus the first
+       byte of the following certificate_authorities length field *)
+    b = [0; 0; 1; 4; 0; 0] /\ fst (snd x) = [(4, 0)].
 Proof.
-  exists [0; 0; 1; 4; 3; 0; 0]. eexists. split; [reflexivity|].
+  exists [0; 0; 1; 4; 0; 0]. eexists. split; [reflexivity|].
   split; [vm_compute; reflexivity|]. split; reflexivity.
 Qed.
 
